@@ -154,7 +154,7 @@ func genPath(alpha []string, maxDepth int) *rapid.Generator[[]string] {
 func genOp(t *rapid.T) Op {
 	alphaGlob := []string{"a", "b", "c", "*", "*"}
 	kind := rapid.SampledFrom([]string{"add", "add", "add", "add", "del", "del", "delcond", "walkdel", "handle", "hupdate",
-		"add", "add", "add", "add", "del", "del", "delcond", "walkdel", "handle", "hupdate", "qstop", "qstop", "wstop", "wsstop"}).Draw(t, "kind")
+		"add", "add", "add", "add", "del", "del", "delcond", "walkdel", "handle", "hupdate", "qstop", "qstop", "wstop", "wsstop", "qpanic", "wpanic", "wspanic"}).Draw(t, "kind")
 	op := Op{Kind: kind}
 	if kind != "hupdate" && rapid.IntRange(0, 2).Draw(t, "relative") == 0 {
 		// address relative to an existing leaf: k-th leaf, cut c elements, append suffix
@@ -167,8 +167,8 @@ func genOp(t *rapid.T) Op {
 		op.Val = rapid.IntRange(1, 1000).Draw(t, "val")
 	case "del", "delcond", "walkdel":
 		op.Path = genPath(alphaGlob, 5).Draw(t, "pat")
-	case "qstop", "wstop", "wsstop":
-		if kind == "qstop" {
+	case "qstop", "wstop", "wsstop", "qpanic", "wpanic", "wspanic":
+		if kind == "qstop" || kind == "qpanic" {
 			op.Path = genPath(alphaGlob, 4).Draw(t, "pat")
 		}
 		op.Val = rapid.IntRange(1, 3).Draw(t, "stop-at")
